@@ -6,6 +6,7 @@
 import ALV.Lemmas.C07Hash
 import ALV.Lemmas.C05Pow
 import ALV.Lemmas.C05Lists
+import ALV.Lemmas.C05Spec
 import ALV.Spec.C05
 import ALV.Common.Audit
 
@@ -250,15 +251,15 @@ theorem subst_ring_hom {f g h : ZF K} (hf : Valid f) (hg : Valid g) (hh : Valid 
   -- φ : K[T;T⁻¹] → Q K, z⁻¹ ↦ (val h)⁻¹
   have hφ : ∀ p : MPoly K, evalQ (val h) p = substHom (val h) hv (toLaurent p) :=
     fun p => (substHom_toLaurent _ hv p).symm
-  have hφf : substHom (val h) hv (D f) ≠ 0 := by rw [D, ← hφ]; exact hdf
-  have hφg : substHom (val h) hv (D g) ≠ 0 := by rw [D, ← hφ]; exact hdg
+  have hφf : substHom (val h) hv (C05.D f) ≠ 0 := by rw [C05.D, ← hφ]; exact hdf
+  have hφg : substHom (val h) hv (C05.D g) ≠ 0 := by rw [C05.D, ← hφ]; exact hdg
   have hA := subst_den hf hh hh0 hdf
   have hB := subst_den hg hh hh0 hdg
   constructor
   · obtain ⟨s, es, hs, evs⟩ := add_den hf hg
     obtain ⟨s', p, es', hD⟩ := add_D hf hg
     obtain rfl : s = s' := by rw [es] at es'; exact Except.ok.inj es'
-    have hφs : substHom (val h) hv (D s) ≠ 0 := by
+    have hφs : substHom (val h) hv (C05.D s) ≠ 0 := by
       rcases hD with hD | hD <;> rw [hD] <;> simp only [map_mul] <;>
         first
           | exact mul_ne_zero hφf (substHom_T_ne_zero _ hv p)
@@ -267,7 +268,7 @@ theorem subst_ring_hom {f g h : ZF K} (hf : Valid f) (hg : Valid g) (hh : Valid 
     have hL : Den (add f g >>= fun s => subst s h) (evalQ (val h) s.num / evalQ (val h) s.den) := by
       rw [es]; exact subst_den hs hh hh0 hds
     refine agree_of_den hL ?_
-    have hfrac : ι (N s) / ι (D s) = ι (N f * D g + N g * D f) / ι (D f * D g) := by
+    have hfrac : ι (N s) / ι (C05.D s) = ι (N f * C05.D g + N g * C05.D f) / ι (C05.D f * C05.D g) := by
       have : val s = val f + val g := evs
       unfold val at this
       rw [this, div_add_div _ _ (ιD_ne_zero hf) (ιD_ne_zero hg)]
@@ -278,10 +279,10 @@ theorem subst_ring_hom {f g h : ZF K} (hf : Valid f) (hg : Valid g) (hh : Valid 
     have e : evalQ (val h) s.num / evalQ (val h) s.den
         = evalQ (val h) f.num / evalQ (val h) f.den + evalQ (val h) g.num / evalQ (val h) g.den := by
       rw [hφ, hφ, hφ, hφ, hφ, hφ]
-      show substHom (val h) hv (N s) / substHom (val h) hv (D s) = _
+      show substHom (val h) hv (N s) / substHom (val h) hv (C05.D s) = _
       rw [ht, map_add, map_mul, map_mul, map_mul]
-      show _ = substHom (val h) hv (N f) / substHom (val h) hv (D f)
-        + substHom (val h) hv (N g) / substHom (val h) hv (D g)
+      show _ = substHom (val h) hv (N f) / substHom (val h) hv (C05.D f)
+        + substHom (val h) hv (N g) / substHom (val h) hv (C05.D g)
       rw [div_add_div _ _ hφf hφg]
       ring
     rw [e]
@@ -289,14 +290,14 @@ theorem subst_ring_hom {f g h : ZF K} (hf : Valid f) (hg : Valid g) (hh : Valid 
   · obtain ⟨s, es, hs, evs⟩ := mul_den hf hg
     obtain ⟨s', p, es', hD⟩ := mul_D hf hg
     obtain rfl : s = s' := by rw [es] at es'; exact Except.ok.inj es'
-    have hφs : substHom (val h) hv (D s) ≠ 0 := by
+    have hφs : substHom (val h) hv (C05.D s) ≠ 0 := by
       rw [hD]; simp only [map_mul]
       exact mul_ne_zero (mul_ne_zero hφf hφg) (substHom_T_ne_zero _ hv p)
     have hds : evalQ (val h) s.den ≠ 0 := by rw [hφ]; exact hφs
     have hL : Den (mul f g >>= fun s => subst s h) (evalQ (val h) s.num / evalQ (val h) s.den) := by
       rw [es]; exact subst_den hs hh hh0 hds
     refine agree_of_den hL ?_
-    have hfrac : ι (N s) / ι (D s) = ι (N f * N g) / ι (D f * D g) := by
+    have hfrac : ι (N s) / ι (C05.D s) = ι (N f * N g) / ι (C05.D f * C05.D g) := by
       have : val s = val f * val g := evs
       unfold val at this
       rw [this, div_mul_div_comm]
@@ -306,13 +307,40 @@ theorem subst_ring_hom {f g h : ZF K} (hf : Valid f) (hg : Valid g) (hh : Valid 
     have e : evalQ (val h) s.num / evalQ (val h) s.den
         = evalQ (val h) f.num / evalQ (val h) f.den * (evalQ (val h) g.num / evalQ (val h) g.den) := by
       rw [hφ, hφ, hφ, hφ, hφ, hφ]
-      show substHom (val h) hv (N s) / substHom (val h) hv (D s) = _
+      show substHom (val h) hv (N s) / substHom (val h) hv (C05.D s) = _
       rw [ht, map_mul, map_mul]
-      show _ = substHom (val h) hv (N f) / substHom (val h) hv (D f)
-        * (substHom (val h) hv (N g) / substHom (val h) hv (D g))
+      show _ = substHom (val h) hv (N f) / substHom (val h) hv (C05.D f)
+        * (substHom (val h) hv (N g) / substHom (val h) hv (C05.D g))
       rw [div_mul_div_comm]
     rw [e]
     exact hA.bind fun a ha ea => hB.bind fun b hb eb => by rw [← ea, ← eb]; exact mul_den ha hb
+
+/-! ### expression trees of any depth; the executable specification -/
+
+/-- **C05.1 for whole expression trees** (`Spec/C05.lean`: `Expr.run` evaluates a tree with the
+operators as coded, `Expr.value` in the textbook field of fractions on canonical pairs): whenever
+the textbook value `s` is defined (no division by the zero function), the code does not raise and
+returns a valid filter `h ≈ s`.  Induction on the tree: no depth bound, no order bound. -/
+theorem expression_trees (e : Expr K) (s : ZF K) (hl : e.Lits Valid) (hs : e.value = some s) :
+    ∃ h, e.run = .ok h ∧ Valid h ∧ h ≈ s ∧ rEquiv h s = true := by
+  obtain ⟨sv, h, e1, hv, ev⟩ := run_denotes e s hl hs
+  have hx : h ≈ s := by
+    unfold val at ev
+    rw [div_eq_div_iff (ιD_ne_zero hv) (ιD_ne_zero' sv), ← map_mul, ← map_mul] at ev
+    exact ι_inj ev
+  exact ⟨h, e1, hv, hx, (rEquiv_iff h s).2 hx⟩
+
+/-- the executable `rEquiv` of the specification (canonical forms of the cross products are equal)
+decides `≈` -/
+theorem rEquiv_decides (f g : ZF K) : rEquiv f g = true ↔ f ≈ g := rEquiv_iff f g
+
+/-- the specification's operations are the operations of the field of rational functions -/
+theorem spec_is_field {f g : ZF K} (hf : C05.D f ≠ 0) (hg : C05.D g ≠ 0) (c : K) (n : ℕ) :
+    val (rAdd f g) = val f + val g ∧ val (rSub f g) = val f - val g ∧ val (rMul f g) = val f * val g ∧
+    val (rNeg f) = -val f ∧ val (rScalar c) = ι (C c) ∧ val (rPowN f n) = val f ^ n ∧ val (rOf f) = val f ∧
+    (∀ r, rDiv f g = some r → val r = val f / val g ∧ val g ≠ 0) :=
+  ⟨(val_rAdd hf hg).2, (val_rSub hf hg).2, (val_rMul hf hg).2, (val_rNeg hf).2, (val_rScalar c).2,
+    (val_rPowN hf n).2, val_rOf f, fun r h => (val_rDiv hf hg h).2⟩
 
 /-! ## C05.2 signal laws for causal filters, any input
 
@@ -488,7 +516,7 @@ theorem parallel_eq_sum (f : ZF K) (t : List (ZF K)) (hc : ∀ g ∈ f :: t, Cau
 denominators — the polynomials of the product filter up to `≈` (exactly: before normalisation) -/
 theorem cascade_polys (f : ZF K) (t : List (ZF K)) (hv : ∀ g ∈ f :: t, Valid g) :
     ∃ n d h, cascadeNumpoly (f :: t) = .ok n ∧ cascadeDenpoly (f :: t) = .ok d ∧
-      toLaurent n = ((f :: t).map N).prod ∧ toLaurent d = ((f :: t).map D).prod ∧
+      toLaurent n = ((f :: t).map N).prod ∧ toLaurent d = ((f :: t).map C05.D).prod ∧
       prodFilters (f :: t) = .ok h ∧ Valid h ∧ (⟨n, d⟩ : ZF K) ≈ h := by
   have hprod : ∀ (t : List (ZF K)) (f0 : ZF K), Valid f0 → (∀ g ∈ t, Valid g) →
       ∃ h, t.foldlM mul f0 = .ok h ∧ Valid h ∧ val h = val f0 * (t.map val).prod := by
@@ -506,7 +534,7 @@ theorem cascade_polys (f : ZF K) (t : List (ZF K)) (hv : ∀ g ∈ f :: t, Valid
     rw [List.foldl_map, List.map_map] at this
     rw [this, List.map_cons, List.prod_cons]
     rfl
-  have hd : toLaurent (t.foldl (fun acc g => C07.mul acc g.den) f.den) = ((f :: t).map D).prod := by
+  have hd : toLaurent (t.foldl (fun acc g => C07.mul acc g.den) f.den) = ((f :: t).map C05.D).prod := by
     have := toLaurent_foldl_mul (t.map (·.den)) f.den
     rw [List.foldl_map, List.map_map] at this
     rw [this, List.map_cons, List.prod_cons]
@@ -514,15 +542,15 @@ theorem cascade_polys (f : ZF K) (t : List (ZF K)) (hv : ∀ g ∈ f :: t, Valid
   refine ⟨t.foldl (fun acc g => C07.mul acc g.num) f.num, t.foldl (fun acc g => C07.mul acc g.den) f.den, h,
     by simp [cascadeNumpoly, prodPolys, List.foldl_map], by simp [cascadeDenpoly, prodPolys, List.foldl_map],
     hn, hd, e, v, ?_⟩
-  -- both denote Π N / Π D
-  have hdne : ∀ (l : List (ZF K)), (∀ g ∈ l, Valid g) → (l.map D).prod ≠ 0 := by
+  -- both denote Π N / Π C05.D
+  have hdne : ∀ (l : List (ZF K)), (∀ g ∈ l, Valid g) → (l.map C05.D).prod ≠ 0 := by
     intro l hl
     apply List.prod_ne_zero
     intro h0
     obtain ⟨g, hg, e0⟩ := List.mem_map.1 h0
     exact D_ne_zero (hl g hg) e0
   have hval : ∀ (l : List (ZF K)), (∀ g ∈ l, Valid g) →
-      ι ((l.map N).prod) / ι ((l.map D).prod) = (l.map val).prod := by
+      ι ((l.map N).prod) / ι ((l.map C05.D).prod) = (l.map val).prod := by
     intro l
     induction l with
     | nil => intro _; simp
@@ -531,7 +559,7 @@ theorem cascade_polys (f : ZF K) (t : List (ZF K)) (hv : ∀ g ∈ f :: t, Valid
       simp only [List.map_cons, List.prod_cons, map_mul]
       rw [← ih (fun x hx => hl x (List.mem_cons_of_mem _ hx)), ← div_mul_div_comm]
       rfl
-  unfold ALV.C05.Equiv N D
+  unfold ALV.C05.Equiv N C05.D
   show toLaurent (t.foldl (fun acc g => C07.mul acc g.num) f.num) * toLaurent h.den
     = toLaurent h.num * toLaurent (t.foldl (fun acc g => C07.mul acc g.den) f.den)
   rw [hn, hd]
@@ -540,7 +568,7 @@ theorem cascade_polys (f : ZF K) (t : List (ZF K)) (hv : ∀ g ∈ f :: t, Valid
   unfold val at hw
   rw [div_eq_div_iff (ιD_ne_zero v) (fun e0 => hdne (f :: t) hv (ι_eq_zero.1 e0)), ← map_mul, ← map_mul] at hw
   have := ι_inj hw
-  show _ * D h = N h * _
+  show _ * C05.D h = N h * _
   rw [← this, _root_.mul_comm]
 
 /-- **`parallel_polys`** (repaired shape, D12): with `denpoly` taken from the same reduced sum as
@@ -606,8 +634,106 @@ theorem eq_hash (f g : ZF K) (hf : WF f.num ∧ WF f.den) (hg : WF g.num ∧ WF 
   unfold C05.hashKey
   rw [h1, h2]
 
+/-! ## non-vacuity: the hypotheses of the theorems above on concrete filters over ℚ -/
+
+/-- `f1 = (1 + z⁻¹)/(1 − z⁻¹/2)`, `g1 = 2z⁻¹/(1 + 3z⁻²)` (numerator starts with a delay),
+`g2 = (3 − z⁻²)/(2 + z⁻¹)` (dictionary in non-sorted insertion order), `zz = z` -/
+abbrev f1 : ZF ℚ := ⟨[(0, 1), (1, 1)], [(0, 1), (1, -1/2)]⟩
+abbrev g1 : ZF ℚ := ⟨[(1, 2)], [(0, 1), (2, 3)]⟩
+abbrev g2 : ZF ℚ := ⟨[(2, -1), (0, 3)], [(1, 1), (0, 2)]⟩
+abbrev zz : ZF ℚ := ⟨[(-1, 1)], [(0, 1)]⟩
+
+local macro "valid_tac" : tactic => `(tactic| (unfold Valid WF; decide +kernel))
+local macro "causal_tac" : tactic =>
+  `(tactic| (refine ⟨by valid_tac, by unfold IsPoly; decide +kernel, by unfold IsPoly; decide +kernel, by decide +kernel⟩))
+
+example : Valid f1 ∧ Valid g1 ∧ Valid g2 ∧ Valid zz := ⟨by valid_tac, by valid_tac, by valid_tac, by valid_tac⟩
+example : Causal f1 ∧ Causal g1 ∧ Causal g2 := ⟨by causal_tac, by causal_tac, by causal_tac⟩
+example : ¬ IsPoly zz.num := by unfold IsPoly; decide +kernel
+
+/-- what the operators compute, concretely (same-denominator shortcut, general sum, flip) -/
+example : (add f1 f1).toOption.map (fun h => (h.num, h.den)) = some ([(0, 2), (1, 2)], [(0, 1), (1, -1/2)]) := by
+  decide +kernel
+example : (add f1 g2).toOption.map (fun h => (h.num, h.den))
+    = some ([(1, 3/2), (0, 5), (3, 1/2)], [(0, 2), (2, -1/2)]) := by decide +kernel
+example : (pow f1 (-2)).toOption.map (fun h => (h.num, h.den))
+    = some ([(0, 1), (1, -1), (2, 1/4)], [(0, 1), (1, 2), (2, 1)]) := by decide +kernel
+example : (C05.z : Except PyErr (ZF ℚ)).toOption.map (fun h => (h.num, h.den)) = some (zz.num, zz.den) := by
+  decide +kernel
+
+/-- C05.1: the laws, instantiated -/
+example := add_comm (f := f1) (g := g2) (by valid_tac) (by valid_tac)
+example := add_assoc (f := f1) (g := g1) (h := g2) (by valid_tac) (by valid_tac) (by valid_tac)
+example := distrib (f := f1) (g := g1) (h := g2) (by valid_tac) (by valid_tac) (by valid_tac)
+example := operators_congr (f := f1) (f' := f1) (g := g1) (g' := g1) (by valid_tac) (by valid_tac)
+  (by valid_tac) (by valid_tac) (equiv_refl _) (equiv_refl _)
+example := div_self (f := g1) (by valid_tac) (by decide)
+example := div_mul_cancel (f := f1) (g := g1) (by valid_tac) (by valid_tac) (by decide)
+example := zpow_add (f := g1) (by valid_tac) (by decide) (-2) 5
+example := pow_neg (f := g2) (by valid_tac) (by decide) 3
+example := equiv_trans (f := f1) (g := f1) (h := f1) (by valid_tac) (by valid_tac) (by valid_tac) rfl rfl
+
+theorem val_zz : val zz = ι (T (-1)) := by
+  unfold val N C05.D
+  simp only [toLaurent_cons, toLaurent_nil, add_zero]
+  have : (AddMonoidAlgebra.single (0 : ℤ) (1 : ℚ) : ℚ[T;T⁻¹]) = 1 := rfl
+  rw [this, map_one, div_one]
+  rfl
+
+/-- substitution: the hypotheses of `subst_value` / `subst_ring_hom` hold for `h = z` -/
+example := subst_ring_hom (f := f1) (g := g2) (h := zz) (by valid_tac) (by valid_tac) (by valid_tac) (by decide)
+  (by rw [val_zz, evalQ_z]; exact ιD_ne_zero (by valid_tac))
+  (by rw [val_zz, evalQ_z]; exact ιD_ne_zero (by valid_tac))
+
+/-- expression trees: `(f1 + 2) / g1**-1 − f1(g2)` is defined and runs -/
+example : ∃ h, (Expr.sub (.div (.add (.lit f1) (.scalar 2)) (.pow (.lit g1) (-1))) (.subst f1 (.lit g2))).run
+    = .ok h ∧ Valid h := by
+  obtain ⟨s, hs⟩ := Option.isSome_iff_exists.1
+    (show (Expr.sub (.div (.add (.lit f1) (.scalar 2)) (.pow (.lit g1) (-1))) (.subst f1 (.lit g2))).value.isSome
+      = true by decide +kernel)
+  have hl : (Expr.sub (.div (.add (.lit f1) (.scalar 2)) (.pow (.lit g1) (-1))) (.subst f1 (.lit g2))).Lits Valid :=
+    ⟨⟨⟨show Valid f1 by valid_tac, trivial⟩, show Valid g1 by valid_tac⟩,
+      ⟨show Valid f1 by valid_tac, show Valid g2 by valid_tac⟩⟩
+  obtain ⟨h, e, v, _⟩ := expression_trees _ s hl hs
+  exact ⟨h, e, v⟩
+
+/-- C05.2: the signal laws, instantiated and evaluated -/
+example := sig_add (f := f1) (g := g2) (by causal_tac) (by causal_tac) [1, 2, 3]
+example : (add f1 g2 >>= fun h => call h [1, 2, 3]).toOption = some [5/2, 23/4, 77/8] := by decide +kernel
+example : addSig (apply f1 [1, 2, 3]) (apply g2 [1, 2, 3]) = [5/2, 23/4, 77/8] := by decide +kernel
+example := sig_mul (f := f1) (g := g2) (by causal_tac) (by causal_tac) [1, 0, 0, 2]
+example := sig_div_mul (f := f1) (g := g1) (by causal_tac) (by causal_tac) (by decide) [1, 2, 3]
+/-- `f1/g1` is not causal (`g1` starts with a delay), `(f1/g1)·g1` is again -/
+example : (truediv f1 g1).toOption.map isCausal = some false := by decide +kernel
+example : (truediv f1 g1 >>= fun q => mul q g1 >>= fun r => call r [1, 2, 3]).toOption
+    = (call f1 [1, 2, 3]).toOption := by decide +kernel
+example := sig_pow (f := g2) (by causal_tac) 3 [1, 2, 3]
+example : (C05.z >>= fun z' => pow z' (-2) >>= fun h => call h [1, 2, (3 : ℚ)]).toOption = some [0, 0, 1] := by
+  decide +kernel
+example := sig_equiv (f := f1) (g := f1) (by causal_tac) (by causal_tac) rfl [1, 2]
+
+/-- C05.3 -/
+example := cascade_eq_prod f1 [g1, g2] (by
+  intro g hg; simp only [List.mem_cons, List.not_mem_nil, or_false] at hg
+  rcases hg with rfl | rfl | rfl <;> causal_tac) [1, 2, 3]
+example := parallel_eq_sum f1 [f1, g2] (by
+  intro g hg; simp only [List.mem_cons, List.not_mem_nil, or_false] at hg
+  rcases hg with rfl | rfl | rfl <;> causal_tac) [1, 2, 3]
+example := cascade_polys f1 [g1] (by
+  intro g hg; simp only [List.mem_cons, List.not_mem_nil, or_false] at hg
+  rcases hg with rfl | rfl <;> valid_tac)
+/-- without the shortcut the pair of `ParallelFilter` polynomials as coded is the sum … -/
+example : (do let n ← parallelNumpoly [f1, g2]
+              let d ← parallelDenpoly [f1, g2]
+              let s ← sumFilters [f1, g2]
+              pure (rEquiv (⟨n, d⟩ : ZF ℚ) s)) = Except.ok true := by decide +kernel
+
+/-- C05.4 -/
 example : C05.eq (⟨[(0, 1), (1, 1)], [(1, 2), (0, 1)]⟩ : ZF Rat) ⟨[(1, 1), (0, 1)], [(0, 1), (1, 2)]⟩ = true := by
   decide +kernel
+example := eq_hash (K := ℚ) ⟨[(0, 1), (1, 1)], [(1, 2), (0, 1)]⟩ ⟨[(1, 1), (0, 1)], [(0, 1), (1, 2)]⟩
+  ⟨by unfold WF; decide +kernel, by unfold WF; decide +kernel⟩ ⟨by unfold WF; decide +kernel, by unfold WF; decide +kernel⟩
+  (by decide +kernel)
 
 end ALV.Props.C05
 
